@@ -34,6 +34,7 @@ type execScript struct {
 	Out        string `json:"out"`         // output id to return ("success", "alt", "error", "cancelled_early", or undeclared e.g. "bogus")
 	DelayMS    int    `json:"delay_ms"`    // sleep before returning
 	Hang       bool   `json:"hang"`        // never return by itself (until cancel signal / server context done)
+	Crash      bool   `json:"crash"`       // the plugin dies: its connection breaks without a result
 	OnCancel   string `json:"on_cancel"`   // "" = return cancelled_early when the cancel signal arrives; "ignore" = keep going
 	BadData    bool   `json:"bad_data"`    // return data that does not match the declared output schema
 	N          int64  `json:"n"`           // value of output field n
@@ -209,14 +210,20 @@ func (c *scriptedConnector) Deploy(ctx context.Context, src string) (deployer.Pl
 	stdoutReader, stdoutSub := io.Pipe()
 	pluginCtx, cancel := context.WithCancel(context.Background())
 	wg := &sync.WaitGroup{}
+	conn := &scriptedConn{id: connID, src: src, phase: phase, reader: stdoutReader, writer: stdinWriter, cancel: cancel, wg: wg, script: ds}
+	kill := func() {
+		// a dying container: both pipe ends break, nothing more is said over the protocol
+		_ = stdoutSub.CloseWithError(fmt.Errorf("scripted plugin crash"))
+		_ = stdinSub.CloseWithError(fmt.Errorf("scripted plugin crash"))
+	}
 	wg.Add(1)
 	go func() {
 		defer wg.Done()
-		sch := newScriptedSchema(book, src, connID)
+		sch := newScriptedSchema(book, src, connID, kill)
 		_ = atp.RunATPServer(pluginCtx, stdinSub, stdoutSub, sch)
 	}()
 	theSink.note("XDeploy", "conn", connID, "src", src, "phase", phase)
-	return &scriptedConn{id: connID, src: src, phase: phase, reader: stdoutReader, writer: stdinWriter, cancel: cancel, wg: wg, script: ds}, nil
+	return conn, nil
 }
 
 // ---- plugin ------------------------------------------------------------------------------------------------------
@@ -288,7 +295,7 @@ func workOutputs() map[string]*schema.StepOutputSchema {
 	}
 }
 
-func newScriptedSchema(book *scriptBook, src string, connID string) *schema.CallableSchema {
+func newScriptedSchema(book *scriptBook, src string, connID string, kill func()) *schema.CallableSchema {
 	handler := func(ctx context.Context, d *workData, in workInput) (string, any) {
 		st := book.forSrc(src)
 		ex := st.Exec
@@ -330,6 +337,18 @@ func newScriptedSchema(book *scriptBook, src string, connID string) *schema.Call
 		var cancelC <-chan struct{}
 		if d != nil {
 			cancelC = d.cancel
+		}
+		if ex.Crash {
+			if ex.DelayMS > 0 {
+				select {
+				case <-time.After(time.Duration(ex.DelayMS) * time.Millisecond):
+				case <-ctx.Done():
+				}
+			}
+			theSink.note("XExecEnd", "src", src, "conn", connID, "id", in.ID, "out", "<crash>")
+			kill()
+			<-ctx.Done()
+			return "success", workOutput{Tok: "dead", L: []string{}}
 		}
 		onCancel := func() (string, any, bool) {
 			theSink.note("XSigRecv", "src", src, "conn", connID, "id", in.ID)
